@@ -28,7 +28,7 @@ ACTIONS = {
     "Stepwise": [("supply", 0.0), ("supply", 5.0), ("supply", 10.0)],
     "DemandSwitch": [("demand", 0.0), ("demand", 5.0), ("demand", 10.0)],
     "Buffer": [("write", 3.0), ("write", 7.0), ("write", 0.0)],
-    "FactoryPool": [("demand", 0.0), ("demand", 1.0), ("demand", 3.0)],
+    "FactoryPool": [("demand", 0.0), ("demand", 1.0), ("demand", 3.0), ("quit", None)],
 }
 INITS = {
     "LinearController": ["down", "dead", "up"],
@@ -137,6 +137,12 @@ class Scenario:
             return lambda: pool.poke(utilisation=utilisation, allocation=allocation)
         if kind == "supply":
             return lambda: pool.poke(supply=value)
+        if kind == "quit":
+            def quit_child():
+                # the oldest child disables itself but keeps draining its supply
+                log.append((trioclock.now(), "env", "factorypool", "quit", None))
+                self.keep[0].state.update(demand=0)
+            return quit_child
         if kind == "demand" and name == "FactoryPool":
             def set_demand():
                 log.append((trioclock.now(), "env", "factorypool", "demand", value))
@@ -236,6 +242,20 @@ def judge(case, scenario, run):
             return "%s.run:%s" % (service, kind), (
                 "no %s at t=%s (acted at %s, run lasted %s)" % (
                     what, when, sorted(steps), duration))
+    if service == "FactoryPool":
+        # what an adjustment is for: once a boundary has passed after the last environment
+        # action, the children still in demand cover the request
+        last_action = max([entry[0] for entry in log if entry[1] == "env"] + [0.0])
+        settled = [when for when in expected if last_action < when < duration]
+        if settled:
+            request = scenario.service.demand
+            covered = sum(child.state["demand"] for child in scenario.keep
+                          if child.state["demand"] > 0)
+            if covered < request:
+                return "FactoryPool.run:adjustment-without-effect", (
+                    "after the boundaries %s (last environment action at t=%s) the children in "
+                    "demand provide %s of the requested %s" % (settled, last_action, covered,
+                                                               request))
     if service == "LinearController":
         points = [(0.0, 20.0)]
         for entry in log:
